@@ -640,13 +640,10 @@ func c02dRuntime(c *Ctx, a *absVariant, gDepth map[string]map[string]int) {
 				if b.Args[0] != param+".label" || !strings.HasPrefix(b.Args[1], "child(") || b.Args[2] != "0" || b.Args[3] != "0" {
 					bad = append(bad, fmt.Sprintf("%s: binds %s := %s in the map fetched at depth %s (bound at depth %s); expected the operand's value under the node's label in the enclosing scope", a.V.Where(b.Pos), b.Args[0], b.Args[1], b.Args[2], b.Args[3]))
 				}
-				if !b.Facts["ok && "+param+`.label != ""`] {
-					// accept any fact set that makes ok true; the label-non-empty guard is optional for correctness
-				}
 			}
 			if e.Ok().IsTrue() && len(bs) == 0 {
 				// legitimate only under label == ""
-				if v, ok := e.State.Facts["ok && "+param+`.label != ""`]; !ok || v {
+				if !factSaysEmpty(e.State.Facts, param+".label") {
 					bad = append(bad, a.where(e, res.Fn)+": success path without binding the label")
 				}
 			}
@@ -701,4 +698,21 @@ func c02e(c *Ctx, a *absVariant) {
 			r.Ok("C02-e", "T."+fn+":boolean-decides", a.V.Name, w, fmt.Sprintf("%d exits", len(res.Exits)))
 		}
 	}
+}
+
+// factSaysEmpty: the path facts (keyed by source text) state that the string x is empty, in any of the usual spellings.
+func factSaysEmpty(facts map[string]bool, x string) bool {
+	for k, v := range facts {
+		switch strings.ReplaceAll(k, " ", "") {
+		case x + `!=""`, "len(" + x + ")!=0", "len(" + x + ")>0", "len(" + x + ")>=1":
+			if !v {
+				return true
+			}
+		case x + `==""`, "len(" + x + ")==0", "len(" + x + ")<1":
+			if v {
+				return true
+			}
+		}
+	}
+	return false
 }
